@@ -562,6 +562,95 @@ func execRcyc(a []string) string {
 	})
 }
 
+// gateTx: a transmitter whose first call waits (inside TransmitFrame) until the gate is closed
+type gateTx struct {
+	recTx
+	in   chan struct{}
+	gate chan struct{}
+}
+
+func (t *gateTx) TransmitFrame(ctx context.Context, f can.Frame) error {
+	select {
+	case t.in <- struct{}{}:
+	default:
+	}
+	<-t.gate
+	return t.recTx.TransmitFrame(ctx, f)
+}
+
+// rtog <hook|tx> <on|off>: cyclic transmission is toggled while the transmitter goroutine is busy inside transmit() --
+// in the before-transmit hook or in TransmitFrame -- i.e. while it is not parked in its select.  The toggle must take
+// effect all the same: after `on` (made during an event transmission, ticker not armed) cyclic frames follow; after
+// `off` (made during a cyclic transmission) at most one already-due frame follows the one in flight.
+func execRtog(a []string) string {
+	return withTimeout(20*time.Second, func() string {
+		where, on := a[0], a[1] == "on"
+		n := &fakeNode{}
+		m := &fakeMsg{n: n, desc: &descriptor.Message{Name: "TxMsg", ID: 7, SendType: descriptor.SendTypeCyclic, CycleTime: 3 * time.Millisecond},
+			wake: make(chan struct{}, 1), event: make(chan struct{}), cyclic: !on}
+		tx := &gateTx{recTx: recTx{n: n, fail: map[int]bool{}}, in: make(chan struct{}, 1), gate: make(chan struct{})}
+		var in chan struct{}
+		var gate chan struct{}
+		if where == "hook" {
+			m.hookGate, m.hookIn = make(chan struct{}), make(chan struct{}, 1)
+			in, gate = m.hookIn, m.hookGate
+			close(tx.gate)
+		} else {
+			in, gate = tx.in, tx.gate
+		}
+		ctx, cancel := context.WithCancel(context.Background())
+		defer cancel()
+		done := make(chan error, 1)
+		go func() { done <- canrunner.RunMessageTransmitter(ctx, tx, n, m, nil2clock()) }()
+		if !waitFor(func() bool { return n.count("acc:IsCyclicTransmissionEnabled") >= 1 }) {
+			return "TIMEOUT-initial"
+		}
+		if on {
+			// ticker not armed: the only way into transmit() is an event request
+			select {
+			case m.event <- struct{}{}:
+			case <-time.After(3 * time.Second):
+				return "TIMEOUT-request-not-accepted"
+			}
+		}
+		select {
+		case <-in:
+		case <-time.After(3 * time.Second):
+			return "TIMEOUT-not-inside-" + where
+		}
+		// the runner is inside transmit(): toggle now
+		n.mu.Lock()
+		m.cyclic = on
+		n.mu.Unlock()
+		select {
+		case m.wake <- struct{}{}:
+		default:
+		}
+		before := n.count("tx")
+		close(gate)
+		res := "ok"
+		if on {
+			if !waitFor(func() bool { return n.count("tx") >= before+4 }) {
+				res = fmt.Sprintf("ENABLE-LOST(frames-after=%d)", n.count("tx")-before)
+			}
+		} else {
+			time.Sleep(60 * time.Millisecond)
+			// the frame in flight, plus at most one already-due tick (where=tx: the frame in flight was recorded when the
+			// gate opened, so it is part of `before` only if it had been counted; allow it either way)
+			if extra := n.count("tx") - before; extra > 2 {
+				res = fmt.Sprintf("DISABLE-LOST(frames-after=%d)", extra)
+			}
+		}
+		cancel()
+		select {
+		case err := <-done:
+			return res + " " + errClass(err) + " " + viols(n)
+		case <-time.After(3 * time.Second):
+			return "TIMEOUT-cancel"
+		}
+	})
+}
+
 // rrun <mode>: canrunner.Run over a pipe: mode = cancel | hookerr | hookerr-closed | txerr
 func execRrun(a []string) string {
 	return withTimeout(10*time.Second, func() string {
@@ -867,6 +956,13 @@ func genC14(g *G) {
 	for i := 0; i < g.N(2, 20); i++ {
 		g.Emit("rcyc %d", i)
 	}
+	for i := 0; i < g.N(1, 6); i++ {
+		for _, w := range []string{"hook", "tx"} {
+			for _, d := range []string{"on", "off"} {
+				g.Emit("rtog %s %s %d", w, d, i)
+			}
+		}
+	}
 	for k := 1; k <= 4; k++ {
 		for i := 0; i < g.N(1, 8); i++ {
 			g.Emit("rrun2 %d %d", k, i)
@@ -888,6 +984,7 @@ func init() {
 	RegExec("rrx", execRrx)
 	RegExec("rtx", execRtx)
 	RegExec("rcyc", execRcyc)
+	RegExec("rtog", execRtog)
 	RegExec("rrun", execRrun)
 	RegExec("rrun2", execRrun2)
 	RegExec("rrun3", execRrun3)
